@@ -311,6 +311,8 @@ PROPS['C15'] = {
         H('c15_order_n3', 'sourceview', 'quick', 1800, 12, 'every 3-byte text, any 3 successive requests (get_line(any) or line_count) on one view', nocover=True),
         H('c15_order_n4', 'sourceview', 'thorough', 2400, 12, 'every 4-byte text, any 3 successive requests', nocover=True),
         H('c15_order_n5', 'sourceview', 'thorough', 3600, 14, 'every 5-byte text, any 3 successive requests', nocover=True),
+        H('c15_lines_iter_n1', 'sourceview', 'quick', 1200, 10, 'every 1-byte text: lines() after an optional earlier request'),
+        H('c15_lines_iter_n2', 'sourceview', 'quick', 2400, 12, 'every 2-byte text: lines() after an optional earlier request'),
         H('c15_lines_iter_n3', 'sourceview', 'thorough', 2400, 12, 'every 3-byte text: lines() after an optional earlier request'),
         H('c15_lines_iter_n4', 'sourceview', 'thorough', 3600, 14, 'every 4-byte text: lines() after an optional earlier request'),
         H('c15_slice_ascii_n4', 'sourceview', 'quick', 900, 10, 'any 4 lower-case letters, any col, span < 2^31'),
